@@ -4,8 +4,9 @@
 # demo fails with it and passes without it. Prints a JSON line.
 set -u
 D="$1"
-WT=/tmp/vseed-wt
-export CARGO_TARGET_DIR=/tmp/vseed-target CARGO_PROFILE_DEV_DEBUG=0 CARGO_PROFILE_TEST_DEBUG=0 CARGO_NET_OFFLINE=true
+W="${VSEED_WORKER:-0}"
+WT=/tmp/vseed-wt-$W
+export CARGO_TARGET_DIR=/tmp/vseed-target-$W CARGO_PROFILE_DEV_DEBUG=0 CARGO_PROFILE_TEST_DEBUG=0 CARGO_NET_OFFLINE=true
 if [ ! -d "$WT" ]; then git -C /repo worktree add -q "$WT" HEAD || exit 2; fi
 cd "$WT" && git checkout -q -- . && git clean -fdq tests bevy_replicon_example_backend/tests src bevy_replicon_example_backend/src
 git -C "$WT" checkout -q --detach "$(git -C /repo rev-parse HEAD)" 2>/dev/null
